@@ -148,8 +148,9 @@ class CountingNormalization(_ValueMixin, Normalization):
         target = abs(r["scale"])
         good = torch.where(zero, (x == 0).all(dim=dims, keepdim=True),
                            (n1 - target).abs() <= RTOL * target + 1e-9)
-        # vectors whose norm is below the documented epsilon are outside the statement
-        tiny = (~zero) & (n0 < 1e-6)
+        # vectors whose norm is below the epsilon in force are outside the statement (2x: rounding of the norm itself)
+        eps = r.get("epsilon") or 1e-12
+        tiny = (~zero) & (n0 < 2 * eps)
         ok = bool((good | tiny).all()) and x.shape == before.shape and x.dtype == before.dtype
         self._plog.value_runs += 1
         self._plog.add(self._hid, ok=ok)
@@ -238,7 +239,10 @@ class HooksImpl:
             dim = real["dim"]
             if isinstance(dim, list):
                 dim = real["dim"] = tuple(dim)
-            h = CountingNormalization(self.module, self.attr, real["order"], real["scale"], dim, **kw)
+            if real.get("epsilon") is not None:
+                h = CountingNormalization(self.module, self.attr, real["order"], real["scale"], dim, float(real["epsilon"]), **kw)
+            else:
+                h = CountingNormalization(self.module, self.attr, real["order"], real["scale"], dim, **kw)
         else:
             raise MachineryFailure(f"unknown hook kind {kind}")
         h._setup(log, hid, real)
